@@ -63,6 +63,10 @@ IcmpHead == [type |-> P(0, 8), code |-> P(8, 8), checksum |-> Ck(16, 16)]
         SSAP = C/R bit + 7 bits; the I/G and C/R bits are the least significant bits of their octets) *)
 LlcHead == [dsap |-> P(0, 8), group |-> X(7, 1), ssap |-> P(8, 8), response |-> X(15, 1)]
 
+BootPFields == [opcode |-> P(0, 8), htype |-> P(8, 8), hlen |-> P(16, 8), hops |-> P(24, 8), xid |-> P(32, 32),
+        secs |-> P(64, 16), padding |-> P(80, 16), ciaddr |-> A(96, 32), yiaddr |-> A(128, 32), siaddr |-> A(160, 32),
+        giaddr |-> A(192, 32), chaddr |-> A(224, 128), sname |-> A(352, 512), file |-> A(864, 1024)]
+
 Layout ==
   (* RFC 791 3.1 "Internet Header Format" (flags: bit 0 reserved, DF, MF; RFC 2474/3168 reuse the TOS octet) *)
   "IP" :> C(20, TRUE, [version |-> P(0, 4), ihl |-> Ln(4, 4), tos |-> P(8, 8), tot_len |-> Ln(16, 16), id |-> P(32, 16),
@@ -154,9 +158,8 @@ Layout ==
   "RTP" :> C(12, TRUE, [version |-> P(0, 2), padding_bit |-> Ln(2, 1), extension_bit |-> P(3, 1), csrc_count |-> Ln(4, 4),
         marker_bit |-> P(8, 1), payload_type |-> P(9, 7), sequence_number |-> P(16, 16), timestamp |-> P(32, 32), ssrc_id |-> P(64, 32)]) @@
   (* RFC 951 3 "Packet Format" (RFC 1542 2.2 names the "unused" halfword "flags"); vend is variable in DHCP (RFC 2131) *)
-  "BootP" :> C(236, TRUE, [opcode |-> P(0, 8), htype |-> P(8, 8), hlen |-> P(16, 8), hops |-> P(24, 8), xid |-> P(32, 32),
-        secs |-> P(64, 16), padding |-> P(80, 16), ciaddr |-> A(96, 32), yiaddr |-> A(128, 32), siaddr |-> A(160, 32),
-        giaddr |-> A(192, 32), chaddr |-> A(224, 128), sname |-> A(352, 512), file |-> A(864, 1024)]) @@
+  "BootP" :> C(236, TRUE, BootPFields) @@
+  "DHCP" :> C(236, TRUE, BootPFields) @@          \* RFC 2131 2: the BOOTP header, then the magic cookie and options
   (* IEEE Std 802.1D-2004 9.3.1 Configuration BPDU, 9.2.5 bridge identifier = priority 4 + system-ID extension 12 +
      address 48, 9.2.8 timer values: 16-bit count of 1/256 s -- libtins' accessors take whole seconds, which is the most
      significant octet of that count (alias views *_sec) *)
@@ -197,14 +200,18 @@ Layout ==
   "Dot11CFEnd" :> C(16, TRUE, Dot11FC @@ [target_addr |-> A(80, 48)]) @@
   "Dot11EndCFAck" :> C(16, TRUE, Dot11FC @@ [target_addr |-> A(80, 48)]) @@
   "Dot11Ack" :> C(10, TRUE, Dot11FC) @@
+  "Dot11Control" :> C(10, TRUE, Dot11FC) @@                                                        \* 8.3.1.3 CTS / 8.3.1.4 ACK shape: RA only
+  "Dot11ControlTA" :> C(16, TRUE, Dot11FC @@ [target_addr |-> A(80, 48)]) @@
+  "Dot11ProbeRequest" :> C(24, TRUE, Dot11FC @@ Dot11Seq) @@                                       \* 8.3.3.9: no fixed parameters
   (* 8.3.1.8 BlockAckReq: BAR Control 16 (Fig 8-21: B0 BAR Ack Policy, B1 Multi-TID, B2 Compressed Bitmap, B3-B11 reserved,
      B12-15 TID_INFO) -- libtins' 4-bit "bar_control" accessor is bound to B0-B3, the rest of the word has no accessor;
      Block Ack Starting Sequence Control (Fig 8-22): B0-3 fragment number, B4-15 starting sequence number.
-     8.3.1.9 BlockAck: the same two words + 128-octet bitmap (basic variant) *)
+     8.3.1.9 BlockAck: the same two words + the Block Ack Bitmap; libtins' class carries the 8-octet bitmap of the
+     compressed variant (8.3.1.9.3), which is the variant tabulated here *)
   "Dot11BlockAckRequest" :> C(20, FALSE, Dot11FC @@ [target_addr |-> A(80, 48), bar_control |-> Lf(128, 4),
         fragment_number |-> Lf(144, 4), start_sequence |-> Lf(148, 12)]) @@
-  "Dot11BlockAck" :> C(148, FALSE, Dot11FC @@ [target_addr |-> A(80, 48), bar_control |-> Lf(128, 4),
-        fragment_number |-> Lf(144, 4), start_sequence |-> Lf(148, 12), bitmap |-> A(160, 1024)])
+  "Dot11BlockAck" :> C(28, FALSE, Dot11FC @@ [target_addr |-> A(80, 48), bar_control |-> Lf(128, 4),
+        fragment_number |-> Lf(144, 4), start_sequence |-> Lf(148, 12), bitmap |-> A(160, 64)])
 
 Classes == DOMAIN Layout
 FieldsOf(c) == DOMAIN Layout[c].fields
